@@ -144,7 +144,10 @@ async def run_async(
 
     while not stop_event.is_set():
         # Read a header line
-        header = await reader.readline()
+        try:
+            header = await reader.readline()
+        except ConnectionError:
+            break
         if not header:
             break
 
@@ -158,7 +161,11 @@ async def run_async(
         # Check if all headers have been read (as indicated by an empty line \r\n)
         if content_length and not header.strip():
             # Read body
-            body = await reader.readexactly(content_length)
+            try:
+                body = await reader.readexactly(content_length)
+            except (asyncio.IncompleteReadError, ConnectionError):
+                # The connection was closed in the middle of a message.
+                break
             if not body:
                 break
 
